@@ -10,7 +10,8 @@ RULE = ("random simple polygons (convex / star / 2-opt-untangled non-convex, 3..
         "cyclic shift, offsets up to 1e4 sizes, scales 1e-3..1e3) and synthetic Voronoi/arc tissues and their connected "
         "hole-free sub-tissues; distinct = (kind, vertex count, orientation) for polygons, (cells, junctions, points "
         "per interface, flipped cells) for tissues; non-trivial = non-zero area"
-        ' Added after the seeded rounds: cells removed through ForSys.remove_cell and neighbours asked again, rectilinear polygons with collinear runs, pickled meshes with large cell ids.')
+        ' Added after the seeded rounds: cells removed through ForSys.remove_cell and neighbours asked again, rectilinear polygons with collinear runs, pickled meshes with large cell ids.'
+        ' Convex polygons with integer (pixel) coordinates.')
 MIN_DECISIVE = {"quick": 40, "thorough": 300}
 REQUIRED_COUNTERS = ["post:get_area", "post:get_perimeter", "post:get_next_vertex", "post:calculate_neighbors",
                      "tissue:additivity"]
